@@ -44,3 +44,65 @@ pub proof fn lemma_enc_scalars_push(s: Seq<Scalar>, x: Scalar)
 {
     assert(s.push(x).drop_last() == s);
 }
+
+// ---- decoding relations: "octet string b is the (strict) encoding of object x" -------------------
+// Written from the drafts' octets_to_signature / octets_to_proof / octets_to_pubkey: exact length,
+// valid subgroup points, canonical scalars, and the forbidden values (identity pk / A / Abar,Bbar,D;
+// e = 0).  Decoders are verified against these relations; canonicity, round trip and injectivity
+// are then lemmas over the relations (lemmas/C09_codec.rs).
+
+pub open spec fn chunk32(b: Seq<u8>, j: int) -> Seq<u8> {
+    b.subrange(32 * j, 32 * j + 32)
+}
+
+/// b (length 32*n) is the concatenation of the canonical encodings of s[0..n)
+pub open spec fn scalars_decode(b: Seq<u8>, s: Seq<Scalar>) -> bool {
+    &&& b.len() == 32 * s.len()
+    &&& forall|j: int| 0 <= j < s.len() ==> sc_dec(#[trigger] chunk32(b, j)) == Some(s[j])
+}
+
+pub open spec fn pk_decodes(b: Seq<u8>, x: BBSplusPublicKey) -> bool {
+    &&& b.len() == 96
+    &&& g2_dec(b) == Some(x.0)
+    &&& x.0 != g2_zero()
+}
+
+pub open spec fn pk_unc_decodes(b: Seq<u8>, x: BBSplusPublicKey) -> bool {
+    &&& b.len() == 192
+    &&& g2_dec_unc(b) == Some(x.0)
+    &&& x.0 != g2_zero()
+}
+
+pub open spec fn sig_decodes(b: Seq<u8>, x: BBSplusSignature) -> bool {
+    &&& b.len() == 80
+    &&& g1_dec(b.subrange(0, 48)) == Some(x.A)
+    &&& sc_dec(b.subrange(48, 80)) == Some(x.e)
+    &&& x.A != g1_zero()
+    &&& x.e != s_zero()
+}
+
+pub open spec fn proof_decodes(b: Seq<u8>, x: BBSplusPoKSignature) -> bool {
+    &&& b.len() == 272 + 32 * x.m_cap@.len()
+    &&& g1_dec(b.subrange(0, 48)) == Some(x.Abar)
+    &&& g1_dec(b.subrange(48, 96)) == Some(x.Bbar)
+    &&& g1_dec(b.subrange(96, 144)) == Some(x.D)
+    &&& sc_dec(b.subrange(144, 176)) == Some(x.e_cap)
+    &&& sc_dec(b.subrange(176, 208)) == Some(x.r1_cap)
+    &&& sc_dec(b.subrange(208, 240)) == Some(x.r3_cap)
+    &&& scalars_decode(b.subrange(240, b.len() as int), x.m_cap@.push(x.challenge))
+    &&& x.Abar != g1_zero()
+    &&& x.Bbar != g1_zero()
+    &&& x.D != g1_zero()
+}
+
+pub open spec fn zkpok_decodes(b: Seq<u8>, x: BBSplusZKPoK) -> bool {
+    &&& b.len() == 64 + 32 * x.m_cap@.len()
+    &&& sc_dec(b.subrange(0, 32)) == Some(x.s_cap)
+    &&& scalars_decode(b.subrange(32, b.len() as int), x.m_cap@.push(x.challenge))
+}
+
+pub open spec fn commitment_decodes(b: Seq<u8>, x: BBSplusCommitment) -> bool {
+    &&& b.len() >= 48
+    &&& g1_dec(b.subrange(0, 48)) == Some(x.commitment)
+    &&& zkpok_decodes(b.subrange(48, b.len() as int), x.proof)
+}
